@@ -230,8 +230,9 @@ func (d *Dynamic) Draw(ctx vxfw.DrawContext) (vxfw.Surface, error) {
 		// Get the index of the cursored widget in our child list
 		idx := d.cursor - d.scroll.top
 
-		// If our cursor is within the list, we draw a cursor next to it
-		if int(idx) < len(s.Children) {
+		// If our cursor is within the list, we draw a cursor next to it.
+		// The cursor can be above the top widget after a wheel scroll
+		if d.cursor >= d.scroll.top && int(idx) < len(s.Children) {
 			ch := s.Children[idx]
 			// Create a surface for the cursor
 			cur := vxfw.NewSurface(ctx.Max.Width, ch.Surface.Size.Height, ch.Surface.Widget)
